@@ -12,15 +12,19 @@ def wrank : WP → Nat
   | .updT => 12 | .updL => 11 | .reading => 10 | .closing => 10 | .connFail => 10 | .resL => 9 | .flushed => 8
   | .tearing => 7 | .torn => 6 | .locked => 5 | .signaled => 1 | .done => 0
 
-def drank (s : St) : Nat :=
-  match s.dpc with
-  | .top => 7 * (s.ws.length - s.i) + 7 + 6
-  | .woken => 7 * (s.ws.length - s.i) + 7 + 5
-  | .wait => 7 * (s.ws.length - s.i) + 7 + 4
-  | .parked => 7 * (s.ws.length - s.i) + 7 + 3
-  | .create => 7 * (s.ws.length - s.i) + 7 + 1
-  | .unlock => 7 * (s.ws.length - s.i) + 7
-  | .dtop => 6 | .dwoken => 5 | .dwait => 4 | .dparked => 3 | .dunlock => 2 | .finishing => 1 | .returned => 0
+def drankOf (d : DPC) (rem : Nat) (scan : Bool) : Nat :=
+  match d with
+  | .top => 7 * rem + 7 + 6
+  | .woken => 7 * rem + 7 + 5
+  | .wait => 7 * rem + 7 + 4
+  | .parked => 7 * rem + 7 + 3
+  | .create => 7 * rem + 7 + 1
+  | .unlock => 7 * rem + 7
+  | .dtop => 7 | .dwoken => 6 | .dwait => 5 | .dparked => 4 | .dunlock => 3
+  | .finishing => if scan then 1 else 2     -- pthread_cancel(thread_sig) still to come, or only the return
+  | .returned => 0
+
+def drank (s : St) : Nat := drankOf s.dpc (s.ws.length - s.i) s.scan
 
 /-- what the signals thread still has to do for the signal it is handling -/
 def srank (s : St) : Nat :=
@@ -81,11 +85,11 @@ theorem rank_e {s s' : St} {a : EAct} (hs : eStep s a = some s') :
     split at hs <;> simp at hs; subst hs
     refine ⟨fun g hc => ?_, fun _ _ => ?_⟩
     · cases hc
-    · simp [rank, drank, srank, sigCredit]
+    · simp [rank, drank, drankOf, srank, sigCredit]
   | deliver g =>
     simp only [eStep, Option.some.injEq] at hs; subst hs
     refine ⟨fun _ _ => ?_, fun v hc => ?_⟩
-    · simp only [rank, drank, srank, sigCredit]
+    · simp only [rank, drank, drankOf, srank, sigCredit]
       by_cases hg : g ∈ s.pend
       · simp [hg]
       · simp [hg, Nat.mul_add]; omega
@@ -103,12 +107,12 @@ theorem rank_s {s s' : St} {a : SAct} (hx : s.exited = none) (hs : sStep s a = s
     have hpos : 0 < s.pend.length := List.length_pos_of_mem hg
     have hmul : sigCredit s * s.pend.length = sigCredit s * (s.pend.length - 1) + sigCredit s := by
       rw [← Nat.mul_succ]; congr 1; omega
-    simp only [rank, drank, srank, sigCredit, hw, hl] at hmul ⊢
+    simp only [rank, drank, drankOf, srank, sigCredit, hw, hl] at hmul ⊢
     cases g <;> cases s.batch <;> simp <;> omega
   | time v =>
     simp only [sStep] at hs
     split at hs
-    · split at hs <;> simp at hs <;> subst hs <;> rename_i hw <;> simp only [rank, drank, srank, sigCredit, hw]
+    · split at hs <;> simp at hs <;> subst hs <;> rename_i hw <;> simp only [rank, drank, drankOf, srank, sigCredit, hw]
       · by_cases hc : INTR < s.now - s.last <;> simp [hc] <;> omega
       · simp
       · simp
@@ -116,7 +120,7 @@ theorem rank_s {s s' : St} {a : SAct} (hx : s.exited = none) (hs : sStep s a = s
     · simp at hs
   | lockT =>
     simp only [sStep] at hs
-    split at hs <;> simp at hs <;> subst hs <;> rename_i ht hw <;> simp only [rank, drank, srank, sigCredit, hw]
+    split at hs <;> simp at hs <;> subst hs <;> rename_i ht hw <;> simp only [rank, drank, drankOf, srank, sigCredit, hw]
     · have : ((List.range s.ts.length).filter fun j => isListed (tsAt s j)).length ≤ s.ts.length := by
         have := List.length_filter_le (fun j => isListed (tsAt s j)) (List.range s.ts.length)
         simpa using this
@@ -127,38 +131,46 @@ theorem rank_s {s s' : St} {a : SAct} (hx : s.exited = none) (hs : sStep s a = s
     split at hs <;> (try split at hs) <;> simp at hs; subst hs
     rename_i k hw hg
     have hlt := lt_of_getElem?' hg.2.1
-    simp only [rank, drank, srank, sigCredit, hw]
+    simp only [rank, drank, drankOf, srank, sigCredit, hw]
     simp; omega
   | unlockT =>
     simp only [sStep] at hs
     split at hs
     · simp only [Option.some.injEq] at hs; subst hs
       rename_i hw
-      simp only [rank, drank, srank, sigCredit, hw]; simp
+      simp only [rank, drank, drankOf, srank, sigCredit, hw]; simp
     · split at hs <;> simp at hs; subst hs
       rename_i k hw _
-      simp only [rank, drank, srank, sigCredit, hw]; simp
+      simp only [rank, drank, drankOf, srank, sigCredit, hw]; simp
     · simp at hs
   | lock =>
     simp only [sStep] at hs
     split at hs <;> simp at hs; subst hs
     rename_i ho hw
-    simp only [rank, drank, srank, sigCredit, hw]; simp
+    simp only [rank, drank, drankOf, srank, sigCredit, hw]; simp
   | unlock =>
     simp only [sStep] at hs
     split at hs <;> simp at hs; subst hs
     rename_i hw
-    simp only [rank, drank, srank, sigCredit, hw]; simp
+    simp only [rank, drank, drankOf, srank, sigCredit, hw]; simp
   | stop =>
     simp only [sStep] at hs
     split at hs <;> simp at hs; subst hs
     rename_i hw
-    simp only [rank, drank, srank, sigCredit, hw]; simp
+    simp only [rank, drank, drankOf, srank, sigCredit, hw]; simp
   | exit c =>
     simp only [sStep] at hs
     split at hs <;> (try split at hs) <;> simp at hs; subst hs
     rename_i hw _
-    simp only [rank, drank, srank, sigCredit, hw, hx]; simp
+    simp only [rank, drank, drankOf, srank, sigCredit, hw, hx]; simp
+  | die =>
+    simp only [sStep] at hs
+    split at hs <;> simp at hs; subst hs
+    rename_i hg
+    have : 1 ≤ srank s := by
+      simp only [srank]; split <;> (first | omega | (rename_i hh; exact absurd hh hg.2.2))
+    simp only [rank, drank, drankOf, srank, sigCredit] at this ⊢
+    simp; omega
 
 theorem rank_d {s s' : St} {a : DAct} (h : Inv s) (ha : a ≠ .createG ∧ a ≠ .cancelG ∧ a ≠ .joinG)
     (hs : dStep s a = some s') :
@@ -171,47 +183,44 @@ theorem rank_d {s s' : St} {a : DAct} (h : Inv s) (ha : a ≠ .createG ∧ a ≠
     simp only [dStep] at hs
     split at hs <;> (try split at hs) <;> simp at hs; subst hs
     rename_i hw _
-    simp [rank, drank, srank, sigCredit, hw, Label.spurious]; omega
+    simp [rank, drank, drankOf, srank, sigCredit, hw, Label.spurious]; omega
   | cancelS =>
     simp only [dStep] at hs
     split at hs <;> (try split at hs) <;> simp at hs; subst hs
     rename_i hd hc0
-    have hc : ¬ s.spc = .cancelled := fun hh => hc0 (Or.inl hh)
-    have : 1 ≤ srank s := by
-      simp only [srank]; split <;> (first | omega | (rename_i hh; exact absurd hh hc))
-    simp only [rank, drank, srank, sigCredit, hd, Label.spurious] at this ⊢
-    simp; omega
+    have hsc : s.scan = false := by cases h' : s.scan <;> simp_all
+    simp [rank, drank, drankOf, srank, sigCredit, hd, hsc, Label.spurious]; omega
   | lock =>
     simp only [dStep] at hs
     split at hs
     · split at hs
       · simp at hs
       · simp only [Option.some.injEq, roomTest] at hs
-        split at hs <;> subst hs <;> simp_all [rank, drank, srank, sigCredit, Label.spurious] <;> omega
+        split at hs <;> subst hs <;> simp_all [rank, drank, drankOf, srank, sigCredit, Label.spurious] <;> omega
     · split at hs
       · simp at hs
       · simp only [Option.some.injEq, drainTest] at hs
-        split at hs <;> subst hs <;> simp_all [rank, drank, srank, sigCredit, Label.spurious] <;> omega
+        split at hs <;> subst hs <;> simp_all [rank, drank, drankOf, srank, sigCredit, Label.spurious] <;> omega
     · simp at hs
   | wait =>
     simp only [dStep] at hs
-    split at hs <;> simp at hs <;> subst hs <;> simp_all [rank, drank, srank, sigCredit, Label.spurious] <;>
+    split at hs <;> simp at hs <;> subst hs <;> simp_all [rank, drank, drankOf, srank, sigCredit, Label.spurious] <;>
       (cases s.sig <;> simp <;> omega)
   | wake sp =>
     simp only [dStep] at hs
     split at hs <;> (try split at hs) <;> simp at hs <;> subst hs <;>
-      simp_all [rank, drank, srank, sigCredit, Label.spurious] <;>
+      simp_all [rank, drank, drankOf, srank, sigCredit, Label.spurious] <;>
       (cases hsg : s.sig <;> simp_all <;> omega)
   | relock =>
     simp only [dStep] at hs
     split at hs
     · split at hs
       · simp only [Option.some.injEq] at hs; subst hs
-        simp_all [rank, drank, srank, sigCredit, Label.spurious]; omega
+        simp_all [rank, drank, drankOf, srank, sigCredit, Label.spurious]; omega
       · simp only [Option.some.injEq, roomTest] at hs
-        split at hs <;> subst hs <;> simp_all [rank, drank, srank, sigCredit, Label.spurious] <;> omega
+        split at hs <;> subst hs <;> simp_all [rank, drank, drankOf, srank, sigCredit, Label.spurious] <;> omega
     · simp only [Option.some.injEq, drainTest] at hs
-      split at hs <;> subst hs <;> simp_all [rank, drank, srank, sigCredit, Label.spurious] <;> omega
+      split at hs <;> subst hs <;> simp_all [rank, drank, drankOf, srank, sigCredit, Label.spurious] <;> omega
     · simp at hs
   | create j =>
     simp only [dStep] at hs
@@ -224,7 +233,7 @@ theorem rank_d {s s' : St} {a : DAct} (h : Inv s) (ha : a ≠ .createG ∧ a ≠
     have hsum := sum_map_set' wrank (b := WP.started) hg
     have hge : s.i ≤ j := by rw [hj]; exact skip_ge s.ts s.i
     simp only [wrank] at hsum
-    simp only [rank, drank, srank, sigCredit, hd, Label.spurious, List.length_set]
+    simp only [rank, drank, drankOf, srank, sigCredit, hd, Label.spurious, List.length_set]
     constructor
     · intro _; omega
     · omega
@@ -235,20 +244,20 @@ theorem rank_d {s s' : St} {a : DAct} (h : Inv s) (ha : a ≠ .createG ∧ a ≠
       rename_i hd
       have hlt := h.f.disp (by rw [hd]; rfl)
       by_cases hn : s.i + 1 < s.ws.length
-      · simp [rank, drank, srank, sigCredit, hd, hn, Label.spurious]; omega
-      · simp [rank, drank, srank, sigCredit, hd, hn, Label.spurious]; omega
+      · simp [rank, drank, drankOf, srank, sigCredit, hd, hn, Label.spurious]; omega
+      · simp [rank, drank, drankOf, srank, sigCredit, hd, hn, Label.spurious]; omega
     · split at hs <;> simp at hs; subst hs
       rename_i hd _
-      simp [rank, drank, srank, sigCredit, hd, Label.spurious]; omega
+      simp [rank, drank, drankOf, srank, sigCredit, hd, Label.spurious]; omega
     · simp only [Option.some.injEq] at hs; subst hs
       rename_i hd
-      simp [rank, drank, srank, sigCredit, hd, Label.spurious]; omega
+      cases hsc : s.scan <;> simp [rank, drank, drankOf, srank, sigCredit, hd, Label.spurious] <;> omega
     · simp at hs
   | ret =>
     simp only [dStep] at hs
     split at hs <;> (try split at hs) <;> simp at hs; subst hs
-    rename_i hd _
-    simp [rank, drank, srank, sigCredit, hd, Label.spurious]; omega
+    rename_i hd hc
+    simp [rank, drank, drankOf, srank, sigCredit, hd, hc.1, Label.spurious]; omega
 
 def Label.isTick : Label → Bool
   | .e (.tick _) => true
@@ -346,7 +355,11 @@ theorem grank_other {s s' : St} {l : Label} (hs : step s l = some s')
     apply grank_congr <;> cases a <;> simp [wEffect]
   | s a =>
     have hd := step_s hs
-    obtain ⟨e1, e2, e3, _⟩ := s_step_ctl hd
+    by_cases ha : a = .die
+    · subst ha
+      simp only [sStep] at hd
+      split at hd <;> simp at hd; subst hd; rfl
+    obtain ⟨e1, e2, e3, _⟩ := s_step_ctl ha hd
     obtain ⟨_, _, _, _, _, _, hts⟩ := s_step_frame hd
     exact grank_congr e1 e2 e3 (by rcases hts with h | ⟨_, h⟩ <;> rw [h]; simp)
   | d a =>
@@ -431,7 +444,7 @@ theorem rank_init (v : Variant) (g sw : Bool) (f n : Nat) (b : Bool) (t0 : Nat) 
     | zero => rfl
     | succ k ih => simp [List.replicate_succ, wrank] at ih ⊢; omega
   simp only [trank, grank, gpcRank, rank, init, hs, srank, sigCredit]
-  split <;> simp [drank] <;> omega
+  split <;> simp [drank, drankOf] <;> omega
 
 /-- termination: in an execution with `k` spurious wake-ups, `d` deliveries and `w` returns of the watchdog from its
     sleep the threads of pdsh take at most `27n + 19 + 2k + (2n + 8)d + 2n·w` steps (whatever the clock does) -/
